@@ -46,6 +46,23 @@ def gen_cases(ctx):
             if len(cs) > 3 and rng.random() < 0.7:
                 cs = rng.sample(cs, rng.randrange(0, 3))
             cases.append(mk_case(kind, rand_params(rng, kind), n, ts, cs, rand_vec(rng, n, "generic"), rng.choice([10, 1])))
+    # tiny / mixed-magnitude amplitudes (a gate is linear: nothing may be "skipped as zero"), and a control listed twice
+    # (the simulator accepts it as the same control), on both paths
+    for kind in KINDS:
+        for n in (3, 4):
+            pl = placements(n, kind)
+            for style in ("tiny", "mixed"):
+                ts, cs = rng.choice(pl)
+                for thr in (10, 1):
+                    cases.append(mk_case(kind, rand_params(rng, kind), n, list(ts), list(cs), rand_vec(rng, n, style), thr))
+            if kind not in ("CNOT", "Toffoli"):
+                con = [p for p in pl if p[1]]
+                if con:
+                    ts, cs = rng.choice(con)
+                    cs = list(cs) + [rng.choice(list(cs))]
+                    rng.shuffle(cs)
+                    for thr in (10, 1):
+                        cases.append(mk_case(kind, rand_params(rng, kind), n, list(ts), cs, rand_vec(rng, n, "generic"), thr))
     real = [(9, 6), (10, 6)] if not ctx.thorough() else [(9, 20), (10, 20), (11, 10), (12, 6)]
     for n, cnt in real:
         for _ in range(cnt):
